@@ -31,6 +31,10 @@ MXA = ["<a href=", '<a href="', "javascript", ":", "&amp;colon;", "&amp;#58;", "
        # allowed attributes whose VALUE contains what would be markup if the serializer left it unquoted
        '<a title="x onmouseover=1">', '<a title="x><img src=x onerror=1>">', "<a title='x\tstyle=y'>", '<a title="x`onmouseover=1">']
 tw.THEMES.setdefault("MXA", MXA)
+MXC = ["<svg>", "<math>", "<mtext>", "<annotation-xml encoding=text/html>", "<foreignObject>", "<title>", "<style>", "<noscript>", "<textarea>",
+       "<xmp>", "<table>", "<select>", "<p>", "</p>", "<a>", "<img src=x onerror=1>", "<!--", "-->", "</style>", "</svg>", "x",
+       "&lt;img src=x onerror=1&gt;", "</noscript>", "&lt;/title&gt;"]
+tw.THEMES.setdefault("MXC", MXC)
 
 IMPLIED = frozenset(["html", "head", "body", "tbody", "colgroup", "tr"])
 SER_OPTS = [{}, {"omit_optional_tags": False, "quote_attr_values": "always"},
@@ -194,7 +198,15 @@ def run(run):
     quick = run.tier == "quick"
     depth = 3 if quick else 4
     classes = {}
-    res = engine.product_bfs(step, len(MX), depth, ctx=("MX",))
+    # (49 letters: depth 4 over the whole alphabet is 5.7 M pipelines; the thorough tier explores depth 3 over the whole
+    # alphabet and depth 4 over its 24-letter core, and the attribute theme to depth 5)
+    res = engine.product_bfs(step, len(MX), 3, ctx=("MX",))
+    if not quick:
+        resc = engine.product_bfs(step, len(MXC), 4, ctx=("MXC",))
+        res.states += resc.states
+        res.transitions += resc.transitions
+        res.obs |= resc.obs
+        res.violations += resc.violations
     resa = engine.product_bfs(step, len(MXA), depth + 1, ctx=("MXA",))
     for v in res.violations + resa.violations:
         if v.diff_class not in classes or len(v.case) < len(classes[v.diff_class].case):
